@@ -56,7 +56,7 @@ PENDING = {
     "pad:reuse-mode&width>reusable-extent:shape": "pad reflect/symmetric/wrap with a width larger than the axis (reflect: axis-1) returns a too short result",
     "pad:stat-mode&stat_length=None:TypeError@array/creation.py:expand_pad_value": "explicit stat_length=None (NumPy's default value) raises TypeError",
     "pad:stat-mode&stat_length>axis:values": "stat_length larger than the axis: the trailing window start goes negative and wraps (NumPy clips)",
-    "pad:mode=constant&padded-axis-empty:ZeroDivisionError@array/core.py:<genexpr>": "constant pad of a zero-length axis divides by zero (chunk size 0 handed to normalize_chunks)",
+    "pad:mode=constant&padded-axis-empty:ZeroDivisionError@array/core.py:<genexpr>": "constant pad of a zero-length axis divides by zero (chunk size 0 handed to normalize_chunks) -- no longer fires on the tree at cb807a3",
     "pad:mode=mean&integer-dtype&corners:values": "integer mean padding on >= 2 axes: corners are the rounded block mean, NumPy rounds axis by axis (off by one)",
     "pad:zero-length:ValueError@array/core.py:concatenate3": "pad (even with width 0, any mode) of a >= 2-d array with a zero-length axis: a key name reaches concatenate3 as data",
     "repeat:repeated-axis-empty:ValueError@array/core.py:concatenate": "repeat along a zero-length axis raises 'Need array(s) to concatenate'",
